@@ -2,6 +2,8 @@
 between variadic primitives and their per-argnum rules."""
 import ast
 
+from .. import facts
+
 from ..model import AnalysisError, norm_text
 from ..terms import children
 from .common import base_name, construct_of, deep_terms, is_numpy_callable, loc_of, project, resolve_callee
@@ -579,7 +581,8 @@ def dropped_options(ctx, world, modes=("vjp", "jvp")):
                 if not handed:
                     continue
                 n += 1
-                shared = [p for p in popt if p in (qsig["pos"] + qsig["kwonly"]) and p in qsig["defaults"] and p in bound and p not in ("out", "dtype", "where", "casting", "subok")]
+                additive = set(facts.load("linear_in").get("affine_options", {}).get(base_name(ref), []))  # must NOT be handed on to a call on the (co)tangent
+                shared = [p for p in popt if p in (qsig["pos"] + qsig["kwonly"]) and p in qsig["defaults"] and p in bound and p not in ("out", "dtype", "where", "casting", "subok") and p not in additive]
                 missing = [p for p in shared if p not in binding and p not in used_anywhere]
                 inst = f"{construct_of(e)} -> {base_name(ref)}({', '.join(handed)})"
                 if not missing:
@@ -596,6 +599,7 @@ _IGNORED_OK = {
     ("*", "keepdims"): "the shape of the cotangent under both keepdims values is decided by A3.reduce; the rules reshape it to the keepdims=True shape computed from the argument's shape and axis",
     ("squeeze", "axis"): "the cotangent is reshaped to the argument's own shape, which undoes every squeeze",
     ("pad", "**"): "constant_values / end_values shift the result by a constant: the derivative w.r.t. the padded array does not depend on them (mode itself is asserted)",
+    ("sum", "initial"): "an additive constant (facts/linear_in.json affine_options): the derivative does not depend on it, and it must NOT reach the sum of the tangents",
 }
 
 
